@@ -456,6 +456,23 @@ fn sweeps(out: &mut Out, r: &mut Rng, full: bool, part: u64, parts: u64) {
             }
         }
     }
+    // A == (HL) selects the timing variant of CPIR / CPDR: every A against (HL) = A-1, A, A+1, with the counter at 1, 2, 0
+    for a in 0..=255u8 {
+        for d in [0xFFu8, 0, 1] {
+            for bc in [1u16, 2, 0] {
+                for op in [0xB1u8, 0xB9] {
+                    one(r, out, 2, op, "cpxr", &|i, bus| {
+                        i.af = (a as u16) << 8 | (i.af & 0xFF);
+                        i.bc = bc;
+                        if i.pc.wrapping_sub(i.hl) < 4 || i.hl.wrapping_sub(i.pc) < 4 {
+                            i.hl = i.pc.wrapping_add(0x1000);
+                        }
+                        bus.mem.insert(i.hl, a.wrapping_add(d));
+                    });
+                }
+            }
+        }
+    }
     // 16-bit arithmetic
     for &x in &WORDS_B {
         for &y in &WORDS_B {
